@@ -178,7 +178,8 @@ class C18(Prop):
         gapfrac = rng.choice([0.0, 0.1, 0.3, 0.6, 0.95])
         for i in range(nseq):
             if dig:
-                rows.append(bytes(gapcode if rng.random() < gapfrac else rng.choice([rng.randrange(K), rng.randrange(K), rng.randrange(K + 1, K + 8)]) for _ in range(alen)))
+                Kp = 18 if K == 4 else 29     # degenerate codes K+1..Kp-3, nonresidue '*' = Kp-2, missing '~' = Kp-1
+                rows.append(bytes(gapcode if rng.random() < gapfrac else rng.choice([rng.randrange(K), rng.randrange(K), rng.randrange(K + 1, Kp)]) for _ in range(alen)))
             else:
                 rows.append(bytes(rng.choice(GAPS_TEXT) if rng.random() < gapfrac else rng.choice(b"ACGTUNacgtRY") for _ in range(alen)))
         if rng.random() < 0.15 and nseq > 1:   # identical columns / rows
@@ -192,6 +193,8 @@ class C18(Prop):
         if which in ("msashuffle", "bootstrap"):
             dig = rng.randrange(2)
             rows = self.rand_msa(rng, dig, K, K)
+            if rng.random() < 0.04:
+                return "%s dig=%d abc=%s rows=%s ip=0 mixed=1" % (which, dig, abc, ",".join(hx(r) for r in rows))
             return "%s dig=%d abc=%s rows=%s ip=%d" % (which, dig, abc, ",".join(hx(r) for r in rows), ip if which == "msashuffle" else 0)
         if which == "vshuffle":
             rows = self.rand_msa(rng, 1, K, K)
@@ -214,11 +217,12 @@ class C18(Prop):
         L = rng.choice([0, 1, 2, 3, rng.randrange(0, 30), rng.randrange(0, 300)])
         gf = rng.choice([0.0, 0.2, 0.5, 0.9])
         if which == "cqrna":
-            mk = lambda: bytes(rng.choice(GAPS_TEXT) if rng.random() < gf else rng.choice(b"ACGUacgu") for _ in range(L))
+            mk = lambda: bytes(rng.choice(GAPS_TEXT) if rng.random() < gf else rng.choice(b"ACGUacguTNXRY*~") for _ in range(L))
             x, y = mk(), mk()
             if rng.random() < 0.05: y = y + b"A"
             return "cqrna abc=%s x=%s y=%s ip=%d" % (abc, hx(x), hx(y), ip)
-        mk = lambda: bytes(K if rng.random() < gf else rng.choice([rng.randrange(K), rng.randrange(K + 1, K + 6)]) for _ in range(L))
+        Kp = 18 if K == 4 else 29
+        mk = lambda: bytes(K if rng.random() < gf else rng.choice([rng.randrange(K), rng.randrange(K + 1, Kp)]) for _ in range(L))
         x, y = mk(), mk()
         if rng.random() < 0.05: y = y + b"\x00"
         return "xqrna abc=%s x=%s y=%s ip=%d" % (abc, hx(x), hx(y), ip)
@@ -268,7 +272,8 @@ class C18(Prop):
         out = []
         for c in range(n):
             seed = rng.choice([1, 2, 3, 42, 0x7fffffff, 0x80000000, 0xffffffff, rng.randrange(1, 1 << 32), rng.randrange(1, 1 << 32), rng.randrange(1, 1 << 32)])
-            ops = ["seed s=%d" % seed]
+            fast = rng.random() < 0.08            # the legacy LCG generator (esl_randomness_CreateFast)
+            ops = ["%s s=%d" % ("seedfast" if fast else "seed", seed)]
             big = (c % 25 == 0) or ctx.tier != "quick"
             t = rng.random()
             if t < 0.12:
@@ -276,9 +281,9 @@ class C18(Prop):
                 o = self.seq_op(rng, big) if rng.random() < 0.7 else self.msa_op(rng)
                 base = o.rsplit(" ip=", 1)[0] if " ip=" in o else o
                 if o.startswith(("bootstrap", "permute")):
-                    ops += [o, "seed s=%d" % seed, o]
+                    ops += [o, ops[0], o]
                 else:
-                    ops += [base + " ip=0", "seed s=%d" % seed, base + " ip=1"]
+                    ops += [base + " ip=0", ops[0], base + " ip=1"]
             else:
                 for _ in range(rng.randrange(1, 7)):
                     r = rng.random()
@@ -289,7 +294,7 @@ class C18(Prop):
                         o = "%s v=%s ip=%d" % (rng.choice(["ishuffle", "ireverse", "dshuffle", "fshuffle", "lshuffle", "dreverse", "freverse", "lreverse", "vcreverse"]),
                                                ",".join(map(str, v)) if v else "-", rng.randrange(2))
                     else: o = self.msa_op(rng)
-                    if rng.random() < 0.12: ops.append(self.poke_for(rng, o))
+                    if not fast and rng.random() < 0.12: ops.append(self.poke_for(rng, o))
                     ops.append(o)
             ops.append("peek")
             out.append({"name": "gen%d" % c, "ops": ops, "sticky": 1})
@@ -352,8 +357,8 @@ class C18(Prop):
         for idx, (op, l) in enumerate(zip(ops, out)):
             w = op.split()[0]; a = kv(op)
             if l.startswith(("fault", "atexit")): continue
-            if w == "seed":
-                cur_seed = a.get("s"); continue
+            if w in ("seed", "seedfast"):
+                cur_seed = w + a.get("s", ""); continue
             try:
                 f = self.check_one(w, a, l)
             except Exception as e:   # malformed output line
@@ -411,6 +416,7 @@ class C18(Prop):
             if w.endswith("shuffle"): return None if sorted(v) == sorted(o) else "not a permutation"
             return None if o == v[::-1] else "not the mirror image"
         if w in ("msashuffle", "bootstrap", "vshuffle"):
+            if a.get("mixed") == "1": return None if l == "einval" else "text/digital mode mismatch must give einval, got %s" % l
             if not l.startswith("ok "): return "returned %s" % l
             dig = (a.get("dig") == "1") or w == "vshuffle"
             rows = [unhx(x) for x in a["rows"].split(",")]; alen = len(rows[0])
@@ -513,7 +519,7 @@ class C18(Prop):
         for c in self.corpus(ctx2) + self.cases(ctx2)[:3000]:
             for o in c["ops"]:
                 w = o.split()[0]; ops[w] += 1; a = kv(o)
-                if "s" in a and w != "seed":
+                if "s" in a and not w.startswith("seed"):
                     L = len(unhx(a["s"])); lens["0" if L == 0 else "1-2" if L <= 2 else "3-39" if L < 40 else "40-299" if L < 300 else "300-5000"] += 1
             n += 1
         return {"input_distribution": {"sampled_cases": n, "ops": dict(ops), "sequence_lengths": dict(lens)},
